@@ -13,7 +13,8 @@ EXPLANATION = (
     "edge passes on_error and cannot reach enqueue; (3) every reply-writing on_error callback returns early when the context was already "
     "Connected, and the Context accessor it uses tests the Connected state; (4) F1 for every reply writer and the 503 writers take "
     "Content-Length and body from the same byte slice; (5) the SOCKS4 verdict tables of writer (0->90) and reader (90->0) agree with the "
-    "connector's comparison; (6) h11c_connect returns Ok only on the code==200 edge.")
+    "connector's comparison; (6) h11c_connect returns Ok only on the code==200 edge."
+    ' P-reply: rule P over every ContextCallback::on_connect / on_error implementation and its callees (a panic while the reply is written means no reply).')
 RULE_TEXT = "instances = dominance queries, constructor sites, callback guards, writer functions, code tables"
 TRUSTED = ["tokio BufWriter flush semantics", "upstream proxies implement their protocols"]
 NOT_DECIDED = ["the client's view of timing", "behaviour of real upstream proxies"]
